@@ -55,7 +55,8 @@ class Spec:
     def __init__(self, prop, title, runs, rule, level="exploration",
                  required=(), assumptions=(), evaluations=None,
                  post=None, exhaustive=False, technique="", level_text="",
-                 level_note="", design_ref="", crash_kinds=None):
+                 level_note="", design_ref="", crash_kinds=None,
+                 any_prop=False):
         self.prop = prop
         self.title = title
         self.runs = runs              # f(tier, seed) -> [RunSpec]
@@ -73,6 +74,9 @@ class Spec:
         # prefixes of abnormal-termination kinds that are violations of this
         # property (None: all); anything else is inconclusive
         self.crash_kinds = crash_kinds
+        # True: a violation of ANY property observed in this check's runs is a
+        # violation of this property too (re-keyed)
+        self.any_prop = any_prop
 
 
 class Result:
@@ -125,7 +129,7 @@ def _replay_record(prop, key, spec, run, case, detail):
     }
 
 
-def collect(prop, pairs, res, crash_kinds=None):
+def collect(prop, pairs, res, crash_kinds=None, any_prop=False):
     """pairs: [(RunSpec, Run)] after execution."""
     for spec, run in pairs:
         info = {"binary": run.target.name, "cases": run.cases,
@@ -146,8 +150,13 @@ def collect(prop, pairs, res, crash_kinds=None):
                         if mvv > info["max"].get(mk, -1):
                             info["max"][mk] = mvv
                 elif ev.get("t") == "viol":
-                    if spec.ignore_viol or ev.get("prop") != prop:
+                    if spec.ignore_viol:
                         continue
+                    if ev.get("prop") != prop:
+                        if not any_prop:
+                            continue
+                        ev = dict(ev)
+                        ev["key"] = "%s/via/%s" % (prop, ev["key"])
                     res.violations.append({
                         "prop": prop, "key": ev["key"],
                         "detail": ev.get("detail", ""),
@@ -332,7 +341,8 @@ def standard_check(spec, tier, seed):
         if not handled or True:
             pairs = [(rs, r) for rs, r in pairs if not r.target.error]
     RN.execute([r for _, r in pairs], NCPU)
-    collect(spec.prop, pairs, res, spec.crash_kinds)
+    collect(spec.prop, pairs, res, spec.crash_kinds, spec.any_prop)
+    res.extra["pairs"] = pairs
     # a timeout is re-run once on its own before anything is said about it
     for (rs, run, case) in res.extra.pop("hangs", []):
         if case is None or case >= 0xFFFFFFFFFFFFFFFE:
@@ -352,6 +362,7 @@ def standard_check(spec, tier, seed):
                                          "hang")})
     if spec.post:
         spec.post(res, tier, seed)
+    res.extra.pop("pairs", None)
     return finish(spec, tier, seed, t0, res, res.extra.get("coverage"))
 
 
